@@ -12,11 +12,10 @@ Local Open Scope string_scope.
 Inductive idk := KSrc | KEmpty.
 Definition is_src (k : idk) : bool := match k with KSrc => true | KEmpty => false end.
 
-Definition env := list (string * idk).
-(* a variable the program never introduced is assumed to hold the source id (worst case) *)
-Fixpoint lookup (x : string) (e : env) : idk :=
-  match e with [] => KSrc | (y, k) :: r => if String.eqb x y then k else lookup x r end.
-Definition set (x : string) (k : idk) (e : env) : env := (x, k) :: e.
+(* environments are total functions; `emitted` starts from the worst case: a variable the program never introduced holds the source id *)
+Definition env := string -> idk.
+Definition lookup (x : string) (e : env) : idk := e x.
+Definition set (x : string) (k : idk) (e : env) : env := fun y => if String.eqb y x then k else e y.
 
 (* one statement: new environment and what it pushes into the tree *)
 Definition step (o : idop) (e : env) : env * list idk :=
@@ -30,17 +29,23 @@ Definition step (o : idop) (e : env) : env * list idk :=
   | OpEmit x => (set x KEmpty e, [lookup x e])             (* moved into the tree *)
   | OpEmitClone x => (e, [lookup x e])                     (* a copy is pushed, x stays usable *)
   | OpEmitNew => (e, [KEmpty])
+  (* y is stored inside x as its second representation (Text::flattened): it is never written next to x, so it is no extra
+     carrier - unless it has the id while x does not *)
+  | OpSetAlt x y => (set y KEmpty e, if is_src (lookup y e) && negb (is_src (lookup x e)) then [KSrc] else [])
   end.
 Fixpoint run (p : list idop) (e : env) : list idk :=
   match p with [] => [] | o :: r => let (e', out) := step o e in out ++ run r e' end.
 
 Definition src_count (l : list idk) : nat := List.length (filter is_src l).
-Definition emitted (p : list idop) : list idk := run p [].
+Definition emitted (p : list idop) : list idk := run p (fun _ => KSrc).
 (* at most one emitted node carries the source id *)
 Definition program_ok (p : list idop) : bool := Nat.leb (src_count (emitted p)) 1.
 Definition id_programs_ok : bool := forallb (fun np => program_ok (snd np)) id_programs.
 
 (* syntactic class for the general theorem: no copies of an id, the source id is assigned once *)
 Definition is_copy (o : idop) : bool :=
-  match o with OpCloneId _ _ | OpCloneNode _ _ | OpEmitClone _ => true | _ => false end.
+  match o with OpCloneId _ _ | OpCloneNode _ _ | OpEmitClone _ | OpSetAlt _ _ => true | _ => false end.
 Definition is_assign (o : idop) : bool := match o with OpAssignSrc _ => true | _ => false end.
+Definition n_assign (p : list idop) : nat := List.length (filter is_assign p).
+(* only moves: new / assign (at most once) / clear / swap / emit by move *)
+Definition copy_free (p : list idop) : bool := forallb (fun o => negb (is_copy o)) p && Nat.leb (n_assign p) 1.
